@@ -176,7 +176,7 @@ Qed.
 (* record_vote either rejects and changes nothing, or records the vote and moves to phase ph *)
 Lemma c_vote_cases c tx sh v :
   let c' := fst (c_vote c tx sh v) in let r := snd (c_vote c tx sh v) in
-  nextid c' = nextid c /\
+  nextid c' = nextid c /\ committing c' = committing c /\
   ((c' = c /\ (r = 3 \/ r = 4 \/ r = 5)) \/
    exists t ph, aget (pending c) tx = Some t /\ c_phase t = 0 /\ aget (c_votes t) sh = None /\
      let t' := Ctx ph (c_parts t) (aset (c_votes t) sh v) (c_started t) (c_tmo t) (c_xconf t) in
@@ -185,26 +185,27 @@ Lemma c_vote_cases c tx sh v :
       (ph = 1 /\ r = 1 /\ aborts c' = aborts c /\ all_voted t' = true /\ all_yes t' = true) \/
       (ph = 2 /\ r = 2 /\ aborts c' = aborts c ++ [(tx, c_parts t)]))).
 Proof.
-  unfold c_vote. destruct (aget (pending c) tx) as [t|] eqn:G; cbn zeta; [|split; [reflexivity|left; auto]].
-  destruct (N.eqb_spec (c_phase t) 0) as [P0|P0]; cbn [negb]; [|split; [reflexivity|left; auto]].
-  destruct (aget (c_votes t) sh) eqn:Gv; [split; [reflexivity|left; auto]|].
+  unfold c_vote. destruct (aget (pending c) tx) as [t|] eqn:G; cbn zeta;
+    [|split; [reflexivity|split; [reflexivity|left; destruct (is_committing c tx); auto]]].
+  destruct (N.eqb_spec (c_phase t) 0) as [P0|P0]; cbn [negb]; [|split; [reflexivity|split; [reflexivity|left; auto]]].
+  destruct (aget (c_votes t) sh) eqn:Gv; [split; [reflexivity|split; [reflexivity|left; auto]]|].
   set (t1 := Ctx 0 (c_parts t) (aset (c_votes t) sh v) (c_started t) (c_tmo t) (c_xconf t)).
   destruct (all_voted t1) eqn:AV.
   - destruct (all_yes t1) eqn:AY; cbn [andb].
-    + destruct (negb (c_xconf t1)) eqn:X; cbn; (split; [reflexivity|]); right; exists t.
+    + destruct (negb (c_xconf t1)) eqn:X; cbn; (split; [reflexivity|split; [reflexivity|]]); right; exists t.
       * exists 1. repeat split; auto. right; left. repeat split; auto.
       * exists 2. repeat split; auto.
-    + cbn. split; [reflexivity|]. right. exists t, 2. repeat split; auto.
-  - cbn. split; [reflexivity|]. right. exists t, 0. repeat split; auto.
+    + cbn. split; [reflexivity|split; [reflexivity|]]. right. exists t, 2. repeat split; auto.
+  - cbn. split; [reflexivity|split; [reflexivity|]]. right. exists t, 0. repeat split; auto.
 Qed.
 
 Lemma c_commit_cases c tx :
   let '(c', r, shs) := c_commit c tx in
   (c' = c /\ r <> 0 /\ shs = []) \/
   (exists t, aget (pending c) tx = Some t /\ c_phase t = 1 /\ r = 0 /\ shs = c_parts t /\
-             c' = Co (adel (pending c) tx) (aborts c) (nextid c) (prep_tmo c)).
+             c' = Co (adel (pending c) tx) (aborts c) (nextid c) (prep_tmo c) (committing c)).
 Proof.
-  unfold c_commit. destruct (aget (pending c) tx) as [t|] eqn:G; [|left; repeat split; discriminate].
+  unfold c_commit. destruct (aget (pending c) tx) as [t|] eqn:G; [|destruct (is_committing c tx); left; repeat split; discriminate].
   destruct (N.eqb_spec (c_phase t) 1); [right; exists t; repeat split; auto|left; repeat split; discriminate].
 Qed.
 
@@ -212,9 +213,9 @@ Lemma c_abort_cases c tx :
   let '(c', r, shs) := c_abort c tx in
   (c' = c /\ r <> 0 /\ shs = []) \/
   (exists t, aget (pending c) tx = Some t /\ r = 0 /\ shs = c_parts t /\
-             c' = Co (adel (pending c) tx) (aborts c) (nextid c) (prep_tmo c)).
+             c' = Co (adel (pending c) tx) (aborts c) (nextid c) (prep_tmo c) (committing c)).
 Proof.
-  unfold c_abort. destruct (aget (pending c) tx) as [t|] eqn:G; [|left; repeat split; discriminate].
+  unfold c_abort. destruct (aget (pending c) tx) as [t|] eqn:G; [|destruct (is_committing c tx); left; repeat split; discriminate].
   right; exists t; repeat split; auto.
 Qed.
 
@@ -239,7 +240,8 @@ Record Inv (g : gst) : Prop := {
   iL : forall tx t parts, aget (pending (co g)) tx = Some t -> In (tx, parts) (parts_of g) -> parts = c_parts t;
   iN : forall tx parts, In (tx, parts) (parts_of g) -> tx < nextid (co g);
   iM : forall tx parts sh, In (tx, true) (dec g) -> In (tx, parts) (parts_of g) -> In sh parts -> In (tx, sh) (cast g);
-  iP : forall p, In p (ps g) -> PInv p
+  iP : forall p, In p (ps g) -> PInv p;
+  iR : forall tx t, In (tx, t) (committing (co g)) -> In (tx, true) (dec g)
 }.
 
 Lemma NoCommit_not_committed g tx : Inv g -> NoCommit g tx -> ~ In (tx, true) (dec g).
@@ -273,6 +275,7 @@ Proof.
   - intros tx parts [].
   - intros tx parts sh [].
   - exact HP.
+  - intros tx t [].
 Qed.
 
 Lemma remove_nth_In {A} (l : list A) i x : In x (remove_nth l i) -> In x l.
@@ -379,13 +382,13 @@ Proof.
   intros I Hok.
   pose proof (c_vote_cases (co g) tx sh v) as Hc. cbn zeta in Hc.
   destruct (c_vote (co g) tx sh v) as [c' r]. cbn [fst snd] in *.
-  destruct Hc as [Hn [[-> _]|[t [ph [Gp [P0 [Gv [Ep Hph]]]]]]]].
+  destruct Hc as [Hn [Hcm [[-> _]|[t [ph [Gp [P0 [Gv [Ep Hph]]]]]]]]].
   - destruct I. constructor; cbn; auto.
   - set (t' := Ctx ph (c_parts t) (aset (c_votes t) sh v) (c_started t) (c_tmo t) (c_xconf t)) in *.
     set (g' := G c' (ps g) (net g) (gnow g) (gh g) (dec g) (applied g) (discarded g) (cast g) (parts_of g)).
     assert (NC : forall tx0, NoCommit g tx0 -> NoCommit g' tx0).
     { apply (NoCommit_aset g g' tx t t'); auto. intros P2. rewrite P0 in P2. discriminate. }
-    destruct I as [iO0 iA0 iB0 iC0 iD0 iE0 iF0 iG0 iH0 iI0 iJ0 iK0 iL0 iN0 iM0 iP0]. constructor.
+    destruct I as [iO0 iA0 iB0 iC0 iD0 iE0 iF0 iG0 iH0 iI0 iJ0 iK0 iL0 iN0 iM0 iP0 iR0]. constructor.
     + (* iO *) cbn. rewrite Ep. now apply aset_NoDup.
     + (* iA *) cbn. intros tx0 t0. rewrite Ep, Hn, aget_aset. destruct (N.eqb_spec tx tx0) as [<-|]; [intros _; eauto|eauto].
     + (* iB *) cbn. intros tx0 b Hd. destruct (iB0 tx0 b Hd) as [Hlt Gn]. rewrite Hn. split; [exact Hlt|].
@@ -414,6 +417,7 @@ Proof.
     + (* iN *) cbn. intros tx0 parts Hp. rewrite Hn. eauto.
     + (* iM *) exact iM0.
     + (* iP *) exact iP0.
+    + (* iR *) cbn. rewrite Hcm. exact iR0.
 Qed.
 
 
@@ -432,7 +436,7 @@ Proof.
     destruct (aget (c_votes t) sh) as [v0|] eqn:Gv; cbn [negb]; [|exact I].
     pose proof (c_vote_cases (co g) tx sh (if yes then VYes 0 else VConflict 0)) as Hc. cbn zeta in Hc.
     destruct (c_vote (co g) tx sh (if yes then VYes 0 else VConflict 0)) as [c' r]. cbn [fst snd] in *.
-    destruct Hc as [_ [[-> _]|[t' [ph [Gp [_ [Gn _]]]]]]].
+    destruct Hc as [_ [_ [[-> _]|[t' [ph [Gp [_ [Gn _]]]]]]]].
     + destruct I. constructor; cbn; auto.
     + rewrite Gt in Gp. injection Gp as <-. congruence.
   - pose proof (vote_Inv g tx sh (if yes then VYes 0 else VConflict 0) I) as H.
@@ -453,7 +457,7 @@ Proof.
   { intros g' tx0 Ed Ep [H|[t [Gt P]]]; unfold NoCommit; rewrite Ed, Ep; [now left|right].
     rewrite aget_aset. destruct (N.eqb_spec n tx0) as [E|]; [|eauto].
     exfalso. pose proof (iA g I tx0 t Gt). unfold n in E. lia. }
-  destruct I as [iO0 iA0 iB0 iC0 iD0 iE0 iF0 iG0 iH0 iI0 iJ0 iK0 iL0 iN0 iM0 iP0]. constructor.
+  destruct I as [iO0 iA0 iB0 iC0 iD0 iE0 iF0 iG0 iH0 iI0 iJ0 iK0 iL0 iN0 iM0 iP0 iR0]. constructor.
   - cbn. now apply aset_NoDup.
   - cbn. intros tx t. rewrite aget_aset. destruct (N.eqb_spec n tx) as [<-|]; [intros _; unfold n; lia|].
     intros Gt. pose proof (iA0 tx t Gt). fold n in H. lia.
@@ -476,6 +480,7 @@ Proof.
   - cbn. intros tx parts0 [[= <- _]|Hp]; [unfold n; lia|]. pose proof (iN0 tx parts0 Hp). lia.
   - cbn. intros tx parts0 sh Hd [[= <- _]|Hp] Hs; [|eauto]. destruct (iB0 n true Hd) as [Hlt _]. unfold n in Hlt. lia.
   - exact iP0.
+  - cbn. exact iR0.
 Qed.
 
 (* ---------------------------------------------------------------- commit / abort decisions *)
@@ -516,7 +521,7 @@ Proof.
       - apply in_or_app. right. now left.
       - intros _ t' Gt'. rewrite Gt in Gt'. injection Gt' as <-. rewrite P1. discriminate. }
     pose proof (dec_snoc_NoDup g tx true t I Gt) as NDd.
-    destruct I as [iO0 iA0 iB0 iC0 iD0 iE0 iF0 iG0 iH0 iI0 iJ0 iK0 iL0 iN0 iM0 iP0]. constructor.
+    destruct I as [iO0 iA0 iB0 iC0 iD0 iE0 iF0 iG0 iH0 iI0 iJ0 iK0 iL0 iN0 iM0 iP0 iR0]. constructor.
     + cbn. now apply adel_NoDup.
     + cbn. intros tx0 t0. rewrite aget_adel. destruct (N.eqb tx tx0); [discriminate|eauto].
     + cbn. intros tx0 b Hd. apply in_app_single in Hd. destruct Hd as [Hd|[= -> ->]].
@@ -538,6 +543,7 @@ Proof.
     + cbn. intros tx0 parts sh Hd Hp Hs. apply in_app_single in Hd. destruct Hd as [Hd|[= ->]]; [eauto|].
       rewrite (iL0 tx t parts Gt Hp) in Hs. destruct (iD0 tx t Gt P1 sh Hs) as [h Gv]. eauto.
     + exact iP0.
+    + cbn. intros tx0 t0 H. apply in_or_app. left. eauto.
 Qed.
 
 Lemma abort_Inv g tx : Inv g -> Inv (fst (gstep g (EAbort tx))).
@@ -556,7 +562,7 @@ Proof.
       - apply in_or_app. right. now left.
       - discriminate. }
     pose proof (dec_snoc_NoDup g tx false t I Gt) as NDd.
-    destruct I as [iO0 iA0 iB0 iC0 iD0 iE0 iF0 iG0 iH0 iI0 iJ0 iK0 iL0 iN0 iM0 iP0]. constructor.
+    destruct I as [iO0 iA0 iB0 iC0 iD0 iE0 iF0 iG0 iH0 iI0 iJ0 iK0 iL0 iN0 iM0 iP0 iR0]. constructor.
     + cbn. now apply adel_NoDup.
     + cbn. intros tx0 t0. rewrite aget_adel. destruct (N.eqb tx tx0); [discriminate|eauto].
     + cbn. intros tx0 b Hd. apply in_app_single in Hd. destruct Hd as [Hd|[= -> ->]].
@@ -577,6 +583,7 @@ Proof.
     + exact iN0.
     + cbn. intros tx0 parts sh Hd Hp Hs. apply in_app_single in Hd. destruct Hd as [Hd|Hd]; [eauto|discriminate].
     + exact iP0.
+    + cbn. intros tx0 t0 H. apply in_or_app. left. eauto.
 Qed.
 
 (* ---------------------------------------------------------------- timeouts / abort broadcast *)
@@ -625,7 +632,7 @@ Proof.
     destruct (timed_out (gnow g) t) eqn:T.
     - left. apply (Hdec tx0 (c_parts t)). apply Hout. eauto.
     - right. exists t. split; [|exact P]. cbn. fold pd'. rewrite Hpd, Gt, T. reflexivity. }
-  destruct I as [iO0 iA0 iB0 iC0 iD0 iE0 iF0 iG0 iH0 iI0 iJ0 iK0 iL0 iN0 iM0 iP0]. constructor.
+  destruct I as [iO0 iA0 iB0 iC0 iD0 iE0 iF0 iG0 iH0 iI0 iJ0 iK0 iL0 iN0 iM0 iP0 iR0]. constructor.
   - cbn. now apply filter_keys_NoDup.
   - cbn. fold pd'. intros tx t H. eauto.
   - cbn. fold pd'. intros tx b Hd. apply in_app_iff in Hd. destruct Hd as [Hd|Hd].
@@ -653,6 +660,7 @@ Proof.
   - cbn. intros tx parts sh Hd Hp Hs. apply in_app_iff in Hd. destruct Hd as [Hd|Hd]; [eauto|].
     apply in_map_iff in Hd. destruct Hd as [? [? _]]. discriminate.
   - exact iP0.
+  - cbn. intros tx t H. apply in_or_app. left. eauto.
 Qed.
 
 Lemma in_abort_msgs q m : In m (abort_msgs q) -> exists tx sh shs, m = MAbort tx sh /\ In (tx, shs) q.
@@ -663,12 +671,192 @@ Qed.
 Lemma take_Inv g : Inv g -> Inv (fst (gstep g ETakeAborts)).
 Proof.
   intros I. cbn [gstep c_take fst].
-  destruct I as [iO0 iA0 iB0 iC0 iD0 iE0 iF0 iG0 iH0 iI0 iJ0 iK0 iL0 iN0 iM0 iP0]. constructor; try assumption.
+  destruct I as [iO0 iA0 iB0 iC0 iD0 iE0 iF0 iG0 iH0 iI0 iJ0 iK0 iL0 iN0 iM0 iP0 iR0]. constructor; try assumption.
   - cbn. intros tx sh h H. apply in_app_iff in H. destruct H as [H|H]; [eauto|]. apply in_abort_msgs in H. destruct H as [? [? [? [? _]]]]. discriminate.
   - cbn. intros tx sh H. apply in_app_iff in H. destruct H as [H|H]; [eauto|]. apply in_abort_msgs in H. destruct H as [? [? [? [? _]]]]. discriminate.
   - intros tx sh H. cbn [net] in H. apply in_app_iff in H. destruct H as [H|H]; [exact (iH0 tx sh H)|].
     apply in_abort_msgs in H. destruct H as [tx' [sh' [shs [[= -> ->] Hin]]]]. apply (proj1 (sort_by_fst_In _ _)) in Hin. exact (iI0 _ _ Hin).
   - cbn. intros tx shs [].
+Qed.
+
+(* ---------------------------------------------------------------- participant housekeeping sweeps *)
+Lemma PInv_ext p q : prepared p = prepared q -> store p = store q -> dirty p = dirty q -> PInv q -> PInv p.
+Proof. unfold PInv. intros -> -> -> H. exact H. Qed.
+
+Lemma p_drop_PInv p tx : PInv p -> PInv (p_drop p tx).
+Proof. intros I. eapply PInv_ext; [| | |apply (p_abort_PInv p tx I)]; reflexivity. Qed.
+
+Lemma fold_p_drop_PInv ids : forall p, PInv p -> PInv (fold_left p_drop ids p).
+Proof. induction ids as [|x r IH]; intros p I; [exact I|]. cbn [fold_left]. apply IH. now apply p_drop_PInv. Qed.
+
+Lemma p_sweep_PInv now tmo strict p : PInv p -> PInv (fst (p_sweep now tmo strict p)).
+Proof.
+  intros I. unfold p_sweep. set (ids := sortN _). pose proof (fold_p_drop_PInv ids p I) as H.
+  destruct strict; cbn [fst]; [|exact H]. eapply PInv_ext; [| | |exact H]; reflexivity.
+Qed.
+
+Lemma sweep_Inv g sh strict tmo : Inv g -> Inv (fst (gstep g (ESweep sh strict tmo))).
+Proof.
+  intros I. cbn [gstep]. destruct (nth_part (ps g) sh) as [p|] eqn:Np; [|exact I].
+  pose proof (p_sweep_PInv (gnow g) tmo strict p (iP g I p (nth_part_In _ _ _ Np))) as HP.
+  destruct (p_sweep (gnow g) tmo strict p) as [p' out]. cbn [fst] in *.
+  destruct I. constructor; cbn; auto.
+  intros q Hq. apply set_nth_In in Hq. destruct Hq as [->|Hq]; auto.
+Qed.
+
+(* ---------------------------------------------------------------- coordinator recovery *)
+Lemma aget_map_snd {V W} (h : V -> W) (l : list (N * V)) k :
+  aget (map (fun kt => (fst kt, h (snd kt))) l) k = option_map h (aget l k).
+Proof. induction l as [|[k0 v0] r IH]; cbn; [reflexivity|]. destruct (N.eqb k0 k); [reflexivity|exact IH]. Qed.
+
+Lemma adel_In_sub {V} (l : list (N * V)) k x : In x (adel l k) -> In x l.
+Proof.
+  induction l as [|[k0 v0] r IH]; cbn; [auto|]. destruct (N.eqb k0 k); [intros H; right; auto|].
+  intros [H|H]; [now left|right; auto].
+Qed.
+
+Lemma recover_cat_1 now t : fst (recover_cat now t) = 1 -> c_phase t = 1.
+Proof.
+  unfold recover_cat. destruct (N.eqb_spec (c_phase t) 0); [destruct (timed_out now t); discriminate|].
+  destruct (N.eqb_spec (c_phase t) 1); [auto|discriminate].
+Qed.
+Lemma recover_cat_3 now t : fst (recover_cat now t) = 3 -> c_phase t = 1.
+Proof.
+  unfold recover_cat. destruct (N.eqb_spec (c_phase t) 0); [destruct (timed_out now t); discriminate|].
+  destruct (N.eqb_spec (c_phase t) 1); [auto|discriminate].
+Qed.
+Lemma recover_cat_2 now t : c_phase t = 2 -> fst (recover_cat now t) = 2.
+Proof. unfold recover_cat. intros ->. reflexivity. Qed.
+
+Lemma to_commit_phase now k t : to_commit now (k, t) = true -> c_phase t = 1.
+Proof. unfold to_commit. cbn [snd]. intros H. apply N.eqb_eq in H. eapply recover_cat_3; eauto. Qed.
+
+Lemma in_decision_msgs ds m :
+  In m (flat_map (fun d : N * (N * list N) => bcast (if N.eqb (fst (snd d)) 3 then MCommit (fst d) else MAbort (fst d)) (snd (snd d))) ds) ->
+  exists tx ph parts sh, In (tx, (ph, parts)) ds /\ m = (if N.eqb ph 3 then MCommit tx sh else MAbort tx sh).
+Proof.
+  rewrite in_flat_map. intros [[tx [ph parts]] [Hin H]]. cbn [fst snd] in H. apply in_bcast in H. destruct H as [sh ->].
+  exists tx, ph, parts, sh. split; [exact Hin|]. destruct (N.eqb ph 3); reflexivity.
+Qed.
+
+Lemma in_decisions c tx ph parts : In (tx, (ph, parts)) (c_decisions c) ->
+  (ph = 3 /\ exists t, In (tx, t) (committing c)) \/ (ph = 2 /\ exists t, In (tx, t) (pending c) /\ c_phase t = 2).
+Proof.
+  unfold c_decisions. rewrite sort_by_fst_In, in_app_iff. intros [H|H]; apply in_map_iff in H; destruct H as [[k t] [[= <- <- <-] Hin]].
+  - left. split; [reflexivity|]. eauto.
+  - right. split; [reflexivity|]. apply filter_In in Hin. destruct Hin as [Hin P]. cbn in P. apply N.eqb_eq in P. eauto.
+Qed.
+
+Lemma recover_Inv g : Inv g -> Inv (fst (gstep g ERecover)).
+Proof.
+  intros I. cbn [gstep fst].
+  set (now := gnow g). set (pd := pending (co g)).
+  set (F := fun kt : N * ctx => (fst kt, set_phase (snd kt) (fst (recover_cat now (snd kt))))).
+  set (pd' := map F (filter (fun kt => negb (to_commit now kt)) pd)).
+  set (new := filter (to_commit now) pd).
+  set (g' := G _ _ _ _ _ _ _ _ _ _).
+  pose proof (iO g I) as ND. fold pd in ND.
+  assert (Hpd : forall tx, aget pd' tx = match aget pd tx with
+                                        | Some t => if to_commit now (tx, t) then None else Some (set_phase t (fst (recover_cat now t)))
+                                        | None => None end).
+  { intros tx. unfold pd'. unfold F. rewrite (aget_map_snd (fun t => set_phase t (fst (recover_cat now t)))).
+    rewrite aget_filter by exact ND. destruct (aget pd tx) as [t|]; [|reflexivity]. destruct (to_commit now (tx, t)); reflexivity. }
+  assert (Hsub : forall tx t', aget pd' tx = Some t' -> exists t, aget pd tx = Some t /\ to_commit now (tx, t) = false /\ t' = set_phase t (fst (recover_cat now t))).
+  { intros tx t'. rewrite Hpd. destruct (aget pd tx) as [t|]; [|discriminate]. destruct (to_commit now (tx, t)) eqn:T; [discriminate|].
+    intros [= <-]. eauto. }
+  assert (Hnew : forall tx t, In (tx, t) new -> aget pd tx = Some t /\ to_commit now (tx, t) = true).
+  { intros tx t H. apply filter_In in H. destruct H as [Hin T]. split; [now apply In_aget|exact T]. }
+  assert (Hdec : forall x, In x (dec g) -> In x (dec g')) by (intros x Hx; cbn; apply in_or_app; now left).
+  assert (Hnd : forall tx t, In (tx, t) new -> In (tx, true) (dec g')).
+  { intros tx t H. cbn. apply in_or_app. right. apply in_map_iff. exists (tx, t). split; [reflexivity|exact H]. }
+  assert (NC : forall tx0, NoCommit g tx0 -> NoCommit g' tx0).
+  { intros tx0 [H|[t [Gt P]]]; [left; auto|]. right. fold pd in Gt.
+    exists (set_phase t (fst (recover_cat now t))). split.
+    - cbn. fold now pd pd'. rewrite Hpd, Gt. destruct (to_commit now (tx0, t)) eqn:T; [|reflexivity].
+      apply to_commit_phase in T. congruence.
+    - cbn. now apply recover_cat_2. }
+  destruct I as [iO0 iA0 iB0 iC0 iD0 iE0 iF0 iG0 iH0 iI0 iJ0 iK0 iL0 iN0 iM0 iP0 iR0]. constructor.
+  - (* iO *) cbn. fold now pd pd'. unfold pd'. rewrite map_map. cbn [F fst]. now apply filter_keys_NoDup.
+  - (* iA *) cbn. fold now pd pd'. intros tx t' H. destruct (Hsub tx t' H) as [t [Gt _]]. eauto.
+  - (* iB *) cbn. fold now pd pd' new. intros tx b Hd. apply in_app_iff in Hd. destruct Hd as [Hd|Hd].
+    + destruct (iB0 tx b Hd) as [Hlt Gn]. split; [exact Hlt|]. fold pd in Gn. now rewrite Hpd, Gn.
+    + apply in_map_iff in Hd. destruct Hd as [[tx' t] [[= <- <-] Hin]]. destruct (Hnew _ _ Hin) as [Gt T].
+      split; [eauto|]. now rewrite Hpd, Gt, T.
+  - (* iC *) cbn. fold now pd new. rewrite map_app, map_map. cbn [fst]. apply NoDup_app_intro; [exact iC0| |].
+    + unfold new. now apply filter_keys_NoDup.
+    + intros x Hx Hy. apply in_map_iff in Hx. destruct Hx as [[x' b] [E Hin]]. cbn in E. subst x'.
+      destruct (iB0 _ _ Hin) as [_ Gn]. fold pd in Gn.
+      apply in_map_iff in Hy. destruct Hy as [[x' t] [E Hin']]. cbn in E. subst x'.
+      destruct (Hnew _ _ Hin') as [Gt _]. congruence.
+  - (* iD *) cbn. fold now pd pd'. intros tx t' H P1 sh Hsh. destruct (Hsub tx t' H) as [t [Gt [_ ->]]]. cbn in P1, Hsh |- *.
+    apply recover_cat_1 in P1. exact (iD0 tx t Gt P1 sh Hsh).
+  - (* iE *) cbn. fold now pd pd'. intros tx t' sh h H Gv Hp. destruct (Hsub tx t' H) as [t [Gt [_ ->]]]. cbn in Gv, Hp. eauto.
+  - (* iF *) cbn. intros tx sh h H. apply in_app_iff in H. destruct H as [H|H]; [eauto|].
+    apply in_decision_msgs in H. destruct H as [tx' [ph [parts [sh' [_ E]]]]]. destruct (N.eqb ph 3); discriminate.
+  - (* iG *) intros tx sh H. cbn [net g'] in H. apply in_app_iff in H. destruct H as [H|H]; [apply Hdec; eauto|].
+    apply in_decision_msgs in H. destruct H as [tx' [ph [parts [sh' [Hin E]]]]].
+    apply in_decisions in Hin. destruct Hin as [[-> [t Hin]]|[-> _]]; [|discriminate]. cbn in E. injection E as -> ->.
+    cbn [committing c_recover] in Hin. apply in_app_iff in Hin. destruct Hin as [Hin|Hin]; [apply Hdec; eauto|].
+    apply in_map_iff in Hin. destruct Hin as [[k t0] [[= <- _] Hin]]. eapply Hnd; eauto.
+  - (* iH *) intros tx sh H. cbn [net g'] in H. apply in_app_iff in H. destruct H as [H|H]; [apply NC; exact (iH0 tx sh H)|].
+    apply in_decision_msgs in H. destruct H as [tx' [ph [parts [sh' [Hin E]]]]].
+    apply in_decisions in Hin. destruct Hin as [[-> _]|[-> [t [Hin P]]]]; [discriminate|]. cbn in E. injection E as -> ->.
+    right. exists t. split; [|exact P]. cbn [co pending c_recover g'] in *. fold now pd pd' in Hin |- *.
+    apply In_aget; [|exact Hin]. unfold pd'. rewrite map_map. cbn [F fst]. now apply filter_keys_NoDup.
+  - (* iI *) intros tx shs H. apply NC. exact (iI0 tx shs H).
+  - (* iJ *) intros tx sh H. apply Hdec. eauto.
+  - (* iK *) intros tx sh H. apply NC. exact (iK0 tx sh H).
+  - (* iL *) cbn. fold now pd pd'. intros tx t' parts H Hp. destruct (Hsub tx t' H) as [t [Gt [_ ->]]]. cbn. eauto.
+  - (* iN *) exact iN0.
+  - (* iM *) cbn. fold now pd new. intros tx parts sh Hd Hp Hs. apply in_app_iff in Hd. destruct Hd as [Hd|Hd]; [eauto|].
+    apply in_map_iff in Hd. destruct Hd as [[tx' t] [[= <-] Hin]]. destruct (Hnew _ _ Hin) as [Gt T].
+    apply to_commit_phase in T. rewrite (iL0 tx' t parts Gt Hp) in Hs. destruct (iD0 tx' t Gt T sh Hs) as [h Gv]. eauto.
+  - (* iP *) exact iP0.
+  - (* iR *) cbn. fold now pd new. intros tx t H. apply in_app_iff in H. destruct H as [H|H]; [apply in_or_app; left; eauto|].
+    apply in_map_iff in H. destruct H as [[k t0] [[= <- _] Hin]]. apply in_or_app. right. apply in_map_iff. exists (k, t0). auto.
+Qed.
+
+Lemma complete_commit_Inv g tx : Inv g -> Inv (fst (gstep g (ECompleteCommit tx))).
+Proof.
+  intros I. cbn [gstep]. unfold c_complete_commit. destruct (aget (committing (co g)) tx) as [t|]; cbn [fst];
+    [|apply shrink_Inv; auto].
+  destruct I. constructor; cbn; auto.
+  intros tx0 t0 H. apply adel_In_sub in H. eauto.
+Qed.
+
+Lemma complete_abort_Inv g tx : Inv g -> Inv (fst (gstep g (ECompleteAbort tx))).
+Proof.
+  intros I. cbn [gstep]. unfold c_complete_abort. destruct (aget (pending (co g)) tx) as [t|] eqn:Gt;
+    [|destruct (is_committing (co g) tx); apply shrink_Inv; auto].
+  destruct (N.eqb_spec (c_phase t) 2) as [P2|P2]; [|apply shrink_Inv; auto]. cbn [fst snd]. change (N.eqb 0 0) with true. cbv iota.
+  set (g' := G _ _ _ _ _ _ _ _ _ _).
+  assert (NC : forall tx0, NoCommit g tx0 -> NoCommit g' tx0).
+  { apply (NoCommit_adel g g' tx false); cbn.
+    - intros x Hx. apply in_or_app. now left.
+    - reflexivity.
+    - apply in_or_app. right. now left.
+    - discriminate. }
+  pose proof (dec_snoc_NoDup g tx false t I Gt) as NDd.
+  destruct I as [iO0 iA0 iB0 iC0 iD0 iE0 iF0 iG0 iH0 iI0 iJ0 iK0 iL0 iN0 iM0 iP0 iR0]. constructor.
+  + cbn. now apply adel_NoDup.
+  + cbn. intros tx0 t0. rewrite aget_adel. destruct (N.eqb tx tx0); [discriminate|eauto].
+  + cbn. intros tx0 b Hd. apply in_app_single in Hd. destruct Hd as [Hd|[= -> ->]].
+    * destruct (iB0 tx0 b Hd) as [Hlt Gn]. split; [exact Hlt|]. rewrite aget_adel. destruct (N.eqb tx tx0); [reflexivity|exact Gn].
+    * split; [eauto|]. rewrite aget_adel, N.eqb_refl. reflexivity.
+  + exact NDd.
+  + cbn. intros tx0 t0. rewrite aget_adel. destruct (N.eqb tx tx0); [discriminate|eauto].
+  + cbn. intros tx0 t0 sh h. rewrite aget_adel. destruct (N.eqb tx tx0); [discriminate|eauto].
+  + exact iF0.
+  + cbn. intros tx0 sh H. apply in_or_app. left. eauto.
+  + intros tx0 sh H. apply NC. exact (iH0 tx0 sh H).
+  + intros tx0 shs H. apply NC. exact (iI0 tx0 shs H).
+  + cbn. intros tx0 sh H. apply in_or_app. left. eauto.
+  + intros tx0 sh H. apply NC. exact (iK0 tx0 sh H).
+  + cbn. intros tx0 t0 parts. rewrite aget_adel. destruct (N.eqb tx tx0); [discriminate|eauto].
+  + exact iN0.
+  + cbn. intros tx0 parts sh Hd Hp Hs. apply in_app_single in Hd. destruct Hd as [Hd|Hd]; [eauto|discriminate].
+  + exact iP0.
+  + cbn. intros tx0 t0 H. apply in_or_app. left. eauto.
 Qed.
 
 (* ---------------------------------------------------------------- every event keeps the invariant *)
@@ -693,6 +881,10 @@ Proof.
   - now apply timeouts_Inv.
   - now apply take_Inv.
   - cbn [gstep fst]. now apply advance_Inv.
+  - now apply recover_Inv.
+  - now apply complete_commit_Inv.
+  - now apply complete_abort_Inv.
+  - now apply sweep_Inv.
   - now apply stray_Inv.
 Qed.
 
@@ -731,6 +923,10 @@ Proof.
   - cbn. eauto.
   - exists []. cbn. now rewrite app_nil_r.
   - exists []. cbn. now rewrite app_nil_r.
+  - cbn. eauto.
+  - destruct (c_complete_commit (co g) tx) as [c' r]. exists []. cbn. now rewrite app_nil_r.
+  - destruct (c_complete_abort (co g) tx) as [c' r]. cbn. destruct (N.eqb r 0); [eauto|exists []; now rewrite app_nil_r].
+  - exists []. rewrite app_nil_r. destruct (nth_part (ps g) sh); [|reflexivity]. destruct (p_sweep _ _ _ _). reflexivity.
   - exists []. rewrite app_nil_r. destruct (aget (pending (co g)) tx) as [t|]; [|reflexivity].
     destruct (mem sh (c_parts t) && _); [reflexivity|]. destruct (c_vote _ _ _ _). reflexivity.
 Qed.
@@ -900,12 +1096,37 @@ Proof.
     split; [exact A|]. split; [exact B|exact ND].
 Qed.
 
+Lemma p_abort_prepared_None p tx k : aget (prepared p) k = None -> aget (prepared (p_abort p tx)) k = None.
+Proof.
+  intros H. unfold p_abort. destruct (aget (prepared p) tx); cbn [prepared]; [|exact H].
+  rewrite aget_adel. destruct (N.eqb tx k); [reflexivity|exact H].
+Qed.
+Lemma fold_p_drop_PD ids : forall p, PD p -> PD (fold_left p_drop ids p) /\ decidedp (fold_left p_drop ids p) = decidedp p.
+Proof.
+  induction ids as [|x r IH]; intros p D; [split; [exact D|reflexivity]|]. cbn [fold_left].
+  assert (D' : PD (p_drop p x)).
+  { intros k Hk. cbn [p_drop prepared decidedp] in *. apply p_abort_prepared_None. now apply D. }
+  destruct (IH (p_drop p x) D') as [A B]. split; [exact A|]. rewrite B. reflexivity.
+Qed.
+Lemma p_sweep_PD now tmo strict p : PD p -> PD (fst (p_sweep now tmo strict p)) /\ decidedp (fst (p_sweep now tmo strict p)) = decidedp p.
+Proof.
+  intros D. unfold p_sweep. set (ids := sortN _). destruct (fold_p_drop_PD ids p D) as [A B].
+  destruct strict; cbn [fst]; [|split; assumption]. split; [|exact B]. intros k Hk. cbn [prepared decidedp] in *. apply A. exact Hk.
+Qed.
+
 Lemma gstep_Inv2 g e : Inv2 g -> Inv2 (fst (gstep g e)).
 Proof.
   intros I. destruct e; cbn [gstep]; try exact I.
   - destruct (nth_error (net g) (N.to_nat i)) as [m|]; [|exact I]. destruct keep; apply deliver_Inv2; exact I.
   - destruct (c_commit (co g) tx) as [[c' r] shs]. exact I.
   - destruct (c_abort (co g) tx) as [[c' r] shs]. exact I.
+  - destruct (c_complete_commit (co g) tx) as [c' r]. exact I.
+  - destruct (c_complete_abort (co g) tx) as [c' r]. exact I.
+  - destruct (nth_part (ps g) sh) as [p|] eqn:Np; [|exact I]. pose proof I as [D [Q ND]].
+    destruct (p_sweep_PD (gnow g) tmo strict p (D p (nth_part_In _ _ _ Np))) as [D' Ed].
+    destruct (p_sweep (gnow g) tmo strict p) as [p' out]. cbn [fst] in *.
+    destruct (Inv2_replace g sh p p' I Np D') as [A B]; [rewrite Ed; apply incl_refl|].
+    split; [exact A|]. split; [exact B|exact ND].
   - destruct (aget (pending (co g)) tx) as [t|]; [|exact I]. destruct (mem sh (c_parts t) && _); [exact I|].
     destruct (c_vote _ _ _ _). exact I.
 Qed.
@@ -920,3 +1141,25 @@ Proof.
   intros p Hp. unfold start, ginit, parts_init in Hp. cbn in Hp. apply in_map_iff in Hp. destruct Hp as [st [<- _]].
   intros tx [].
 Qed.
+
+(* ================================================================== 6. participant housekeeping and agreement *)
+(* `no_split` speaks of transactions discarded on an ABORT MESSAGE.  A housekeeping sweep (cleanup_stale / recover) drops
+   a prepared transaction on the participant's own authority: "every participant that voted Yes for a committed
+   transaction applies it once all messages are delivered" is false of the model (known finding F-C03-presumed-abort) *)
+Definition sweep_witness : list ev :=
+  [EBegin [0; 1] [(0, [Put 0 1]); (1, [Put 1 1])] false; EDeliver 0 false; EDeliver 0 false; EDeliver 0 false; EDeliver 0 false;
+   ESweep 1 false 0; ECommit 1; EDeliver 0 false; EDeliver 0 false].
+Theorem yes_voter_applies_refuted :
+  exists ctmo parts0 es tx sh sh',
+    let g := grun (start ctmo parts0) es in
+    In (tx, true) (dec g) /\ In (tx, sh) (applied g) /\ In (tx, sh') (cast g) /\ net g = [] /\ ~ In (tx, sh') (applied g).
+Proof.
+  exists 100000, [([], 30000); ([], 30000)], sweep_witness, 1, 0, 1. vm_compute.
+  repeat split; auto. intros [H|[]]. discriminate.
+Qed.
+
+(* a transaction that recover() moved to Committing carries the decision commit (so, by one_decision, no later
+   abort(), cleanup_timeouts, recover() or complete_abort can turn it into an abort) *)
+Theorem committing_is_decided ctmo parts0 es tx t :
+  let g := grun (start ctmo parts0) es in In (tx, t) (committing (co g)) -> In (tx, true) (dec g).
+Proof. intros g. exact (iR g (reachable_Inv ctmo parts0 es) tx t). Qed.
